@@ -80,6 +80,10 @@ class Ctx:
             else:
                 new.append(v)
         os.makedirs(os.path.join(EVID, "replay"), exist_ok=True)
+        if not self.only_key:
+            import glob
+            for old in glob.glob(os.path.join(EVID, "replay", self.prop + "-*.json")):
+                os.remove(old)
         for v in seen_known:
             print("KNOWN-FINDING: property=%s %s — %s" % (self.prop, v["key"], known_keys[v["key"]].get("what", v["detail"])))
         for i, v in enumerate(new):
